@@ -173,7 +173,13 @@ func runC11(c *Ctx) {
 	// the composer applies a validated ietf-json-patch through the library only: no other code path produces document
 	// bytes from an operation (the pointer rules above are rules about what the *library* does with a pointer)
 	c.jsonPatchFoldRule("C11.X3")
-	c.Min("C11.X3", 2)
+	// the composer computes each result from the document and the patch it is given, and from nothing it remembered:
+	// a result cache that hands out a remembered document lets a later key / service action rewrite what a JSON patch
+	// "produces"
+	if ap := c.Method(pComposer, "DocumentComposer", "ApplyPatches"); ap != nil {
+		c.statelessRule("C11.X3", "patch application", []*ssa.Function{ap})
+	}
+	c.Min("C11.X3", 3)
 
 	// validator and composer use the same decoder, on the patch's own value
 	decode := lib.Func("DecodePatch")
